@@ -192,14 +192,48 @@ func funcKey(f *ssa.Function) string {
 }
 
 func (c *Ctx) fn(key string) *ssa.Function {
-	f := c.FuncByK[key]
+	f := c.fnOpt(key)
 	if f == nil {
 		c.undecided("anchor function not found: " + key)
 	}
 	return f
 }
 
-func (c *Ctx) fnOpt(key string) *ssa.Function { return c.FuncByK[key] }
+// fnOpt looks the anchor up by its key; a method "pkg:T.name" that is gone is
+// also looked for as the plain function "pkg:name" taking T (or *T) first, and
+// a plain function as the only method of that name in the package: turning
+// one into the other changes no behaviour.
+func (c *Ctx) fnOpt(key string) *ssa.Function {
+	if f := c.FuncByK[key]; f != nil {
+		return f
+	}
+	i := strings.LastIndex(key, ":")
+	if i < 0 {
+		return nil
+	}
+	pkg, name := key[:i], key[i+1:]
+	if j := strings.Index(name, "."); j >= 0 {
+		typ, meth := name[:j], name[j+1:]
+		g := c.FuncByK[pkg+":"+meth]
+		if g == nil || g.Signature.Recv() != nil || len(g.Params) == 0 {
+			return nil
+		}
+		if nt := namedOf(g.Params[0].Type()); nt != nil && nt.Obj().Name() == typ {
+			return g
+		}
+		return nil
+	}
+	var found *ssa.Function
+	for k, g := range c.FuncByK {
+		if strings.HasPrefix(k, pkg+":") && strings.HasSuffix(k, "."+name) && strings.Count(k[len(pkg)+1:], ".") == 1 && g.Parent() == nil {
+			if found != nil {
+				return nil
+			}
+			found = g
+		}
+	}
+	return found
+}
 
 // namedType returns the named type pkgRel.Name.
 func (c *Ctx) namedType(pkgRel, name string) *types.Named {
